@@ -26,6 +26,7 @@ class Contract:
     ghost: dict = field(default_factory=dict)
     lets: dict = field(default_factory=dict)         # name -> expr, evaluated in the pre-state, usable in clauses
     tags: list = field(default_factory=list)
+    ghost_out: dict = field(default_factory=dict)    # name -> lambda source (Int -> Int), defined over the locals at exit
     locals: dict = field(default_factory=dict)       # local variable name -> type (for `x = []`)
     pure_result: bool = False                        # result is a deterministic function of arguments (no heap)
 
